@@ -16,3 +16,4 @@ def run(prog, rep):
     r_flow.run_views(prog, rep, fs)
     r_flow.run_feature_dispatch(prog, rep, multi=False)
     r_pair.run_pairs(prog, rep)
+    r_flow.run_forward(prog, rep, which=('Tag',))
